@@ -36,6 +36,16 @@ pub fn run(ctx: &Ctx) -> i32 {
                 l.opacity = 255;
             }
         }
+        // one in eight non-indexed sprites has its palette from a legacy chunk only (then the header's colour
+        // count and every other unused field must still not matter)
+        let mut palprog = palprog;
+        if sp.fmt != crate::model::Fmt::Indexed && sp.sprite_ud.is_none() && i % 8 == 5 {
+            let kind = if rng.chance(1, 2) { 4u16 } else { 0x11 };
+            let pcase = rng.below(6);
+            let packets = crate::checks::c11::gen_packets(&mut rng, kind, pcase);
+            sp.palette = Some(crate::checks::c11::legacy_expected(kind, &packets));
+            palprog = crate::program::PaletteProgram::Chunks(vec![crate::model::ChunkSpec::OldPalette { kind, packets }]);
+        }
         let sp = sp;
         let mut res = CaseResult::ok(gen::features(&sp), 0, "ok");
         if sp.layers.iter().all(|l| l.opacity == 255) {
@@ -57,8 +67,8 @@ pub fn run(ctx: &Ctx) -> i32 {
         res.leaves += exp.leaves();
         for j in 0..k {
             // one-at-a-time choices first, then combined random vectors
-            let v = if j < 9 && (i as usize + j) % 2 == 0 {
-                Variation::only((i as usize + j) % 9)
+            let v = if j < 10 && (i as usize + j) % 2 == 0 {
+                Variation::only((i as usize + j) % 10)
             } else if j == k - 1 {
                 Variation::all()
             } else {
@@ -72,6 +82,7 @@ pub fn run(ctx: &Ctx) -> i32 {
                 v.trailer = rng.chance(1, 2);
                 v.legacy_pal = rng.chance(1, 2);
                 v.cel_order = rng.chance(1, 2);
+                v.split = rng.chance(1, 2);
                 v
             };
             let bytes = encode(&compile_with(&sp, &mut rng, &v, &palprog)).0;
